@@ -3,7 +3,7 @@
 TLC (MC_C19) tags every name the generator refers to with how it is written (absolute path, method call, the
 macro's own parameters, user tokens, third-party output) and resolves them one by one against every scope
 variant (clean; each of 15 names shadowed; all shadowed; generated trait named `Send` / `Sync`; no_std): nothing
-may be captured.  Thirteen programs (one per input mode / delegation kind) are rendered into each variant - invoked
+may be captured.  Fourteen programs (one per input mode / delegation kind) are rendered into each variant - invoked
 by absolute path in modules that import nothing - expanded by the real macro, compiled and run (the no_std
 variant is a `#![no_std]` library, compile-only); TLC (Trace_C19) requires every variant to compile and to give
 the same run-time result and trait availability as the clean-scope run."""
@@ -69,7 +69,7 @@ def main():
     chk.cov["evaluations"] = len(events)
     chk.cov["distinct_nontrivial"] = sum(1 for e in events if e["kind"] != "clean")
     chk.cov["run_and_compared_with_clean_scope"] = sum(1 for e in events if e["ran"] and e["kind"] != "clean")
-    chk.cov["rule"] = ("13 programs (fn, async fn with bounds, by-value deps, mod, concrete deps, entraited trait Self / async / ref / Borrow, "
+    chk.cov["rule"] = ("14 programs (fn, a chain of fns whose generated traits are each other's dependency bounds, async fn with bounds, by-value deps, mod, concrete deps, entraited trait Self / async / ref / Borrow, "
                        "static dependency inversion, dyn dependency inversion by ref (sync, and async with async_trait) and by Borrow) x scope variants {clean, each of 15 names shadowed (Impl, core, entrait, Future, Send, "
                        "Sync, AsRef, Borrow, Sized, Box, Option, Result, std, a value named like the trait, a value named EntraitT), all shadowed, "
                        "trait named Send / Sync, #![no_std] library}; invoked by absolute path with no imports; non-trivial = not the clean variant")
